@@ -513,7 +513,7 @@ def two_loop_reference(xs, gs, mh):
     return qv
 
 
-def run_bfgs_case(spec):
+def run_bfgs_case(spec, record=False):
     """Feed the same (position, gradient) history to L_BFGS and VL_BFGS; max relative deviations."""
     import nifty.cl as ift
     n, mh = spec["n"], spec["mh"]
@@ -539,6 +539,7 @@ def run_bfgs_case(spec):
     xs, gs = [], []
     x = rng.normal(size=n)
     worst = {"lv": 0.0, "lref": 0.0, "step": -1}
+    recs = []
     for step in range(spec["steps"]):
         xs.append(x.copy())
         gs.append(grad(x))
@@ -551,56 +552,46 @@ def run_bfgs_case(spec):
         dlr = float(np.linalg.norm(pl - pr) / sc)
         if max(dlv, dlr) > max(worst["lv"], worst["lref"]):
             worst = {"lv": dlv, "lref": dlr, "step": step}
+        if record:
+            st = V._information_store
+            m = st.history_length
+            b = [v.asnumpy().tolist() for v in st.b]          # the implementation's own window read-out
+            recs.append({"m": m, "mh": mh, "k": step, "S": b[:m], "Y": b[m:2 * m], "g": b[2 * m],
+                         "bdb": np.array(st.b_dot_b).tolist(), "delta": [float(t) for t in st.delta],
+                         "pL": pl.tolist(), "pV": pv.tolist(), "scale": float(sc)})
         x = x + rng.uniform(0.05, 1.0) * pr / (1.0 + np.linalg.norm(pr)) + 0.05 * rng.normal(size=n)
+    worst["recs"] = recs
     return worst
 
 
-def run_bfgs1_case(spec):
-    """1-pixel histories: every operation of both direction routines is a deterministic IEEE scalar
-    operation, so the model in PrimFloat must reproduce direction and delta coefficients bit for bit.
-    Returns one record per call: (positions so far, gradients so far, p_L, p_VL, delta)."""
-    import nifty.cl as ift
-    rng = np.random.Generator(np.random.PCG64([29, spec["seed"]]))
-    dom = ift.DomainTuple.make(ift.UnstructuredDomain((1,)))
-    a, q, c = spec["a"], spec["q"], spec["c"]
+def coq_delta_case(r):
+    return "delta_case %d %s %s" % (r["m"], C.clist([cf(v) for row in r["bdb"] for v in row]),
+                                    C.clist([cf(v) for v in r["delta"]]))
 
-    class FE:
-        def __init__(self, x):
-            self.position = ift.Field.from_raw(dom, np.array([x]))
-            self.gradient = ift.Field.from_raw(dom, np.array([a * x + 4 * q * x**3 + c]))
 
-    ic = ift.GradientNormController(iteration_limit=1)
-    L = ift.L_BFGS(ic, max_history_length=spec["mh"])
-    L.reset()
-    V = ift.VL_BFGS(ic, max_history_length=spec["mh"])
-    V._information_store = None
-    xs, gs, out = [], [], []
-    x = float(rng.normal())
-    for step in range(spec["steps"]):
-        e = FE(x)
-        g = float(e.gradient.asnumpy()[0])
-        if g == 0.0 or (xs and (x == xs[-1] or g == gs[-1])):
-            break                       # degenerate pair (0/0 in both routines): outside the domain
-        xs.append(x)
-        gs.append(g)
-        pl = float(L.get_descent_direction(e).asnumpy()[0])
-        pv = float(V.get_descent_direction(e).asnumpy()[0])
-        dl = [float(t) for t in V._information_store.delta]
-        out.append({"xs": list(xs), "gs": list(gs), "mh": spec["mh"], "pL": pl, "pV": pv, "delta": dl})
-        x = x + float(rng.uniform(0.1, 1.0)) * pl * float(rng.choice([1.0, 0.3])) + 0.01 * float(rng.normal())
+def coq_dirs_term(r):
+    fl = lambda v: C.clist([cf(t) for t in v])
+    return "bfgs_dirs %d %s %s %s" % (len(r["g"]), C.clist([fl(v) for v in r["S"]]),
+                                      C.clist([fl(v) for v in r["Y"]]), fl(r["g"]))
+
+
+def parse_float_lists(txt):
+    """'= ([a%float; (-b)%float], [...]) : ...' -> list of lists of Python floats."""
+    import re
+    out = []
+    for body in re.findall(r"\[([^\[\]]*)\]", txt):
+        vals = []
+        for tok in body.split(";"):
+            tok = tok.strip().replace("%float", "").strip("() ")
+            if not tok:
+                continue
+            tok = {"infinity": "inf", "neg_infinity": "-inf"}.get(tok, tok)
+            vals.append(float(tok))
+        out.append(vals)
     return out
 
 
-def coq_bfgs1(r):
-    return "bfgs_case %s %s %d %s %s %s" % (
-        C.clist([cf(v) for v in r["xs"]]), C.clist([cf(v) for v in r["gs"]]), r["mh"], cf(r["pL"]), cf(r["pV"]),
-        C.clist([cf(v) for v in r["delta"]]))
-
-
-def gen_bfgs1_spec(rng, i):
-    return {"seed": int(rng.integers(0, 1 << 30)), "a": float(rng.uniform(0.2, 5.0)),
-            "q": float(rng.choice([0.0, 0.1, 1.0])), "c": float(rng.normal()), "mh": int(1 + i % 5),
-            "steps": int(rng.integers(2, 14))}
+DIR_TOL = 1e-9     # relative to the norm of the reference direction; observed ~1e-15
 
 
 # --------------------------------------------------------------------------------------------------
@@ -746,7 +737,7 @@ class C16(C.Check):
         "hand-written model coq/C16/Model.v of LineSearch.perform_line_search/_zoom and DescentMinimizer.__call__ (tied by bit-exact correspondence, not by translation)",
         "_cubicmin/_quadmin are oracles of the model: their outputs are recorded from the implementation through a LineSearch subclass",
         "the 1-D recording energy of the harness (start 0, direction +-2^k, so that position/direction is the step length exactly)",
-        "window abstraction of the BFGS models: 'the last min(k, max_history_length) pairs' stands for the ring buffers and the cached Gram entries of _InformationStore (tied by bit-exact replay of 1-pixel histories that wrap the buffer, and by the n-D direct oracle)",
+        "window abstraction of the BFGS models: 'the last min(k, max_history_length) pairs' stands for the ring buffers and the cached Gram entries of _InformationStore (tied by replay of n-D histories that wrap the buffer: delta bit-exact, directions within tolerance; and by the direct oracle against an independent two-loop reference)",
     ]
     assumptions = [
         "phi and phi' are deterministic functions of the step length (Energy objects are immutable)",
@@ -755,19 +746,17 @@ class C16(C.Check):
     ]
 
     def __init__(self):
-        self.ls_obs, self.dm_obs, self.bfgs_specs, self.bfgs1_specs, self.b1_obs = [], [], [], [], []
+        self.ls_obs, self.dm_obs, self.bfgs_specs, self.b_obs = [], [], [], []
 
     def _cases(self, ctx):
         rng = ctx.rng(16)
-        nls, ndm, nb = (260, 60, 40) if ctx.quick else (3000, 500, 400)
+        nls, ndm, nb = (260, 60, 25) if ctx.quick else (3000, 500, 200)
         ls = [c["spec"] for c in ctx.corpus() if c.get("kind") == "ls"]
         dm = [c["spec"] for c in ctx.corpus() if c.get("kind") == "dm"]
         bf = [c["spec"] for c in ctx.corpus() if c.get("kind") == "bfgs"]
         ls += [gen_ls_spec(rng) for _ in range(nls)]
         dm += [gen_dm_spec(rng, i) for i in range(ndm)]
         bf += [gen_bfgs_spec(rng, i) for i in range(nb)]
-        self.bfgs1_specs = [c["spec"] for c in ctx.corpus() if c.get("kind") == "bfgs1"]
-        self.bfgs1_specs += [gen_bfgs1_spec(rng, i) for i in range(nb // 2)]
         return ls, dm, bf
 
     def correspondence(self, ctx, res):
@@ -780,15 +769,16 @@ class C16(C.Check):
         self.dm_obs = [o for o in self.dm_obs if o["result"] is not None] + dm_exc
         ndm_ok = len(self.dm_obs) - len(dm_exc)
         checks = [coq_ls_case(o) for o in self.ls_obs] + [coq_dm_case(o) for o in self.dm_obs[:ndm_ok]]
-        self.b1_obs = [r for sp in self.bfgs1_specs for r in run_bfgs1_case(sp)]
+        self.b_obs = [r for sp in bf for r in run_bfgs_case(sp, record=True)["recs"]]
         n_pre = len(checks)
-        checks += [coq_bfgs1(r) for r in self.b1_obs]
+        checks += [coq_delta_case(r) for r in self.b_obs]
         bad = C.eval_cases(self.prop, "corr", HEADER, checks)
         nls = len(self.ls_obs)
         for i in bad[:4]:
             if i >= n_pre:
-                r = self.b1_obs[i - n_pre]
-                res.add_broken("correspondence", "L_BFGS/VL_BFGS.get_descent_direction vs coq/C16/Model.v", {"kind": "bfgs1", **r})
+                r = self.b_obs[i - n_pre]
+                res.add_broken("correspondence", "_InformationStore.delta vs coq/C16/Model.v (bit-exact from b_dot_b)",
+                               {"kind": "bfgs", "m": r["m"], "bdb": r["bdb"], "delta": r["delta"]})
             elif i < nls:
                 o = self.ls_obs[i]
                 res.add_broken("correspondence", "LineSearch.perform_line_search vs coq/C16/Model.v",
@@ -799,6 +789,25 @@ class C16(C.Check):
                 res.add_broken("correspondence", "DescentMinimizer.__call__ vs coq/C16/Model.v",
                                {"kind": "dm", "spec": o["spec"], "result": o["result"], "ls": o["ls"],
                                 "checks": o["checks"], "acc": o["acc"], "values": o["values"]})
+        # directions: model in IEEE arithmetic vs implementation, tolerance comparison done here
+        dir_terms = [coq_dirs_term(r) for r in self.b_obs]
+        printed = C.eval_terms(self.prop, "dirs", HEADER, dir_terms) if dir_terms else []
+        ndir_bad = 0
+        worst_dir = 0.0
+        for r, txt in zip(self.b_obs, printed):
+            lists = parse_float_lists(txt or "")
+            ok = len(lists) == 2 and len(lists[0]) == len(r["g"]) and len(lists[1]) == len(r["g"])
+            if ok:
+                dL = float(np.linalg.norm(np.array(lists[0]) - np.array(r["pL"]))) / r["scale"]
+                dV = float(np.linalg.norm(np.array(lists[1]) - np.array(r["pV"]))) / r["scale"]
+                worst_dir = max(worst_dir, dL, dV)
+                ok = dL <= DIR_TOL and dV <= DIR_TOL
+            if not ok:
+                ndir_bad += 1
+                if ndir_bad <= 2:
+                    res.add_broken("correspondence", "L_BFGS/VL_BFGS.get_descent_direction vs coq/C16/Model.v (tolerance %g)" % DIR_TOL,
+                                   {"kind": "bfgs", "m": r["m"], "mh": r["mh"], "k": r["k"], "S": r["S"], "Y": r["Y"], "g": r["g"],
+                                    "pL": r["pL"], "pV": r["pV"], "model": lists})
         zoomed = sum(1 for o in self.ls_obs if o["quad"])
         backtracked = sum(1 for o in self.ls_obs if any(
             k == "atfail" for k, _ in o["log"]) or any(isinstance(v[0], float) and (math.isnan(v[0]) or abs(v[0]) > 1e100) for v in o["table"].values()))
@@ -806,21 +815,22 @@ class C16(C.Check):
         raised = sum(1 for o in self.ls_obs if o["result"][0] == "raise")
         nontriv = {C.stable_hash(o["spec"]) for o in self.ls_obs if len(o["log"]) > 4}
         nontriv |= {C.stable_hash(o["spec"]) for o in self.dm_obs if len(o["ls"]) >= 1}
-        nontriv |= {C.stable_hash([r["xs"], r["mh"]]) for r in self.b1_obs if len(r["xs"]) >= 2}
+        nontriv |= {C.stable_hash([r["S"], r["g"]]) for r in self.b_obs if r["m"] >= 1}
         stat = {}
         for o in self.dm_obs:
             key = "%s:%s" % (o["spec"]["minimizer"], "none" if o["result"] is None else ST[o["result"][1]])
             stat[key] = stat.get(key, 0) + 1
         res.coverage.update({
-            "evaluations": len(checks), "distinct_nontrivial": len(nontriv),
+            "evaluations": len(checks) + len(dir_terms), "distinct_nontrivial": len(nontriv),
             "rule": "line search: random polynomials of degree 2-6 on a 1-pixel domain, direction +-2^k, all LineSearch parameters, optional FloatingPointError/NaN/huge regions, f_k_minus_1 and longest_step; non-trivial = more than one trial step evaluated.  Minimiser loop: 5 minimisers x generated convex/non-convex n-D quartics x 3 library controllers + scripted controllers x real/parametrised/scripted line searchers; non-trivial = at least one line-search call.  distinct by spec hash",
             "samples": [{"spec": o["spec"], "result": o["result"], "n_evaluations": len(o["log"])} for o in self.ls_obs[3:6]],
             "input_distribution": {"line_search_cases": nls, "entered_zoom": zoomed, "backtracked": backtracked,
                                    "success": succ, "raised": raised, "minimiser_runs": len(self.dm_obs),
                                    "minimiser_runs_ended_by_exception_not_replayed": len(dm_exc),
-                                   "minimiser_outcomes": stat, "bfgs_direction_calls_1px": len(self.b1_obs),
-                                   "bfgs_calls_with_wrapped_ring_buffer": sum(1 for r in self.b1_obs if len(r["xs"]) - 1 > r["mh"])},
-            "disagreements": len(bad), "exhaustive": False,
+                                   "minimiser_outcomes": stat, "bfgs_direction_calls": len(self.b_obs),
+                                   "bfgs_calls_with_wrapped_ring_buffer": sum(1 for r in self.b_obs if r["k"] > r["mh"]),
+                                   "bfgs_direction_max_rel_deviation_model_vs_impl": worst_dir},
+            "disagreements": len(bad) + ndir_bad, "exhaustive": False,
         })
         return bad
 
